@@ -268,3 +268,32 @@ Fixpoint run_sched (s : state) (sch : list (nat * list Z)) : state :=
 (* a round gives every agent one turn *)
 Definition fair_round (nagents : nat) (rd : list (nat * list Z)) : Prop := forall a, a < nagents -> exists ch, In (a, ch) rd.
 Definition round_robin (nagents : nat) (c : Z) : list (nat * list Z) := map (fun a => (a, [c])) (seq 0 nagents).
+
+(* ---------- static dependencies (tasks numbered in preorder, the root body is 0) ---------- *)
+(* own: (name, child task) of the joins spawned so far in this body; cap: (name, task) of the futures captured from the enclosing
+   bodies.  An edge (x, y): task x waits for task y. *)
+Fixpoint deps_op (o : op) (me next : nat) (own cap : list (nat * nat)) {struct o} : list (nat * nat) * nat * list (nat * nat) :=
+  match o with
+  | OWork => ([], next, own)
+  | OWait j => (map (fun nc => (me, snd nc)) (filter (fun nc => Nat.eqb (fst nc) j) own), next, own)
+  | OWaitUp j => (match assoc j cap with Some f => [(me, f)] | None => [] end, next, own)
+  | OSpawn j k body =>
+      let c := next in
+      let capc := filter (fun nc => negb (Nat.eqb (fst nc) j)) own ++ cap in
+      let '(e, n', _) :=
+        (fix go (l : list op) (nx : nat) (ow : list (nat * nat)) : list (nat * nat) * nat * list (nat * nat) :=
+           match l with
+           | [] => ([], nx, ow)
+           | o1 :: r => let '(e1, n1, ow1) := deps_op o1 c nx ow capc in
+                        let '(e2, n2, ow2) := go r n1 ow1 in (e1 ++ e2, n2, ow2)
+           end) body (S next) [] in
+      (e, n', (j, c) :: own)
+  end.
+Fixpoint deps_ops (l : list op) (me next : nat) (own cap : list (nat * nat)) : list (nat * nat) * nat * list (nat * nat) :=
+  match l with
+  | [] => ([], next, own)
+  | o1 :: r => let '(e1, n1, ow1) := deps_op o1 me next own cap in
+               let '(e2, n2, ow2) := deps_ops r me n1 ow1 cap in (e1 ++ e2, n2, ow2)
+  end.
+Definition deps (p : list op) : list (nat * nat) := fst (fst (deps_ops p 0 1 [] [])).
+Definition acyclic (p : list op) : Prop := exists rank : nat -> nat, forall x y, In (x, y) (deps p) -> rank y < rank x.
